@@ -131,7 +131,9 @@ pub fn run(opts: &Opts) -> i32 {
             let mut session = CompilerSession::default();
             let stdin: &[u8] = b"7\nhello world\n42\n";
             let argv = vec!["one".to_string(), "two".to_string()];
-            let (class, case) = machine_case(&mut session, &path, Some(&text), stdin, &argv, fuel);
+            // a mutant that no longer terminates builds ever larger values and each step gets slower:
+            // the stuck-state monitor watches the first 100,000 steps of a mutant
+            let (class, case) = machine_case(&mut session, &path, Some(&text), stdin, &argv, fuel.min(100_000));
             (path, text, class, case.map(|(_, ans)| ans))
         });
         for (path, text, class, ans) in results {
